@@ -5,28 +5,43 @@ import (
 	"crypto/rand"
 	"encoding/json"
 	"fmt"
+	"github.com/volatiletech/authboss/v3/defaults"
 	"net/http"
 	"net/http/httptest"
 	"net/url"
 	"runtime/debug"
 	"sort"
 	"strings"
+	"verif/shim/vsmtp"
 
 	"github.com/volatiletech/authboss/v3"
 	"verif/shim/vtime"
 )
 
-func newMailer(s *Stack) authboss.Mailer { return mailer{s} }
+func newMailer(s *Stack) authboss.Mailer {
+	if s.Cfg.SMTPMailer {
+		// the shipped SMTP mailer; under the schedule-engine overlay net/smtp is
+		// the vsmtp shim, which delivers into the world's outbox
+		vsmtp.SetDeliver(func(addr, from string, to []string, msg []byte) error {
+			s.point("smtp.SendMail")
+			defer s.guard()()
+			s.W.Mails = append(s.W.Mails, Mail{To: to, Text: string(msg)})
+			return nil
+		})
+		return defaults.NewSMTPMailer("smtp.site.test:25", nil)
+	}
+	return mailer{s}
+}
 
 // Req describes one HTTP request by a browser.
 type Req struct {
-	Browser string
-	Method  string
-	Path    string            // path incl. query, relative to the site root (authboss routes include the mount)
-	Form    map[string]string // body fields (sent as a form or as a JSON object, per Config.JSON)
-	RawBody string            // sent verbatim instead of Form when non-empty
-	CType   string            // overrides the content type
-	ForceForm bool            // send a form body even when Config.JSON
+	Browser   string
+	Method    string
+	Path      string            // path incl. query, relative to the site root (authboss routes include the mount)
+	Form      map[string]string // body fields (sent as a form or as a JSON object, per Config.JSON)
+	RawBody   string            // sent verbatim instead of Form when non-empty
+	CType     string            // overrides the content type
+	ForceForm bool              // send a form body even when Config.JSON
 	ForceJSON bool
 
 	// Tag says what the request is, for the oracles (never sent).
@@ -251,4 +266,74 @@ func fmtMap(m map[string]string) string {
 	}
 	sb.WriteByte('}')
 	return sb.String()
+}
+
+// DoConc executes one request for concurrent use (schedule engine, race
+// pass): no per-request bookkeeping on the stack, nothing global is touched.
+// The caller owns the clock and the random stream.
+func (s *Stack) DoConc(w *World, rq Req) *Obs {
+	if rq.Method == "" {
+		rq.Method = "GET"
+	}
+	o := &Obs{Req: rq}
+	asJSON := (s.Cfg.JSON || rq.ForceJSON) && !rq.ForceForm
+	var body []byte
+	ctype := ""
+	if rq.Form != nil {
+		if asJSON {
+			body, _ = json.Marshal(rq.Form)
+		} else {
+			v := url.Values{}
+			for k, val := range rq.Form {
+				v.Set(k, val)
+			}
+			body = []byte(v.Encode())
+		}
+	} else if asJSON && rq.Method != "GET" {
+		body = []byte("{}")
+	}
+	if asJSON {
+		ctype = "application/json"
+	} else if rq.Method != "GET" {
+		ctype = "application/x-www-form-urlencoded"
+	}
+	hr, err := http.NewRequest(rq.Method, "http://site.test"+rq.Path, bytes.NewReader(body))
+	if err != nil {
+		o.Status = -1
+		return o
+	}
+	hr.RemoteAddr = "192.0.2.1:1234"
+	if ctype != "" {
+		hr.Header.Set("Content-Type", ctype)
+	}
+	hr.Header.Set("X-Browser", rq.Browser)
+	hr = hr.WithContext(contextWithBrowser(hr.Context(), rq.Browser))
+	rec := &recorder{ResponseRecorder: httptest.NewRecorder()}
+	rec.Header().Set("X-Browser-Echo", rq.Browser)
+	func() {
+		defer func() {
+			if p := recover(); p != nil {
+				o.Panic = fmt.Sprintf("%v\n%s", p, debug.Stack())
+			}
+		}()
+		s.Handler.ServeHTTP(rec, hr)
+	}()
+	o.Wrote = rec.wrote
+	o.Status = rec.Code
+	o.Header = rec.Header().Clone()
+	o.Header.Del("X-Browser-Echo")
+	o.Body = rec.Body.String()
+	if strings.HasPrefix(o.Header.Get("Content-Type"), "application/json") {
+		var m map[string]interface{}
+		if json.Unmarshal(rec.Body.Bytes(), &m) == nil {
+			o.JSON = m
+		}
+	}
+	o.Location = o.Header.Get("Location")
+	func() {
+		defer s.guard()()
+		b := w.Browsers[rq.Browser]
+		o.SessAfter, o.CookAfter = copyMap(b.Session), copyMap(b.Cookies)
+	}()
+	return o
 }
